@@ -1,5 +1,6 @@
 (* C07 - Hostile or truncated input ends a stream with one error, never a hang or panic.
-   Statements only: each theorem is closed by [exact] of a lemma proved in Proofs/Decoder.v.
+   Statements only: each theorem is closed by [exact] of a lemma proved in Proofs/Decoder.v or
+   Proofs/DecoderExt.v.
 
    The model (Model/Decoder.v) mirrors tonic/src/codec/decode.rs; a body is a list of events
    (BPending | BData bytes | BTrailers map | BErr status) followed by End forever, so "for all
@@ -11,8 +12,23 @@
    "Every poll completes": [poll_next] is a total function, structurally recursive on the
    event list - every iteration of the Rust loop returns or consumes one body event. *)
 From Verif Require Import Lib.Bytes Lib.Obs Lib.HeaderMap Model.Frame Model.Status.
-From Verif Require Import Model.Decoder Proofs.Decoder.
+From Verif Require Import Model.Decoder Proofs.Decoder Model.DecoderExt Proofs.DecoderExt.
 Open Scope N_scope.
+
+(* WHAT THE HARNESS EVALUATES.  h_decode compares [obs_case_x] (Model/DecoderExt.v): the poll_next
+   tower of Model/Decoder.v extended by compression.rs decompress() with its usize arithmetic and a
+   ghost log of what it reserves and writes.  Its first component - the poll results, the counts of
+   polls of the ended body - is, for every script of byte chunks and every usize buffer size, exactly
+   that of Model/Decoder.v's [drain] / [polls] ([obs_decode_gen]), the functions all theorems below
+   speak about.  (So the extended tower never reports a Panic of its own: the capacity arithmetic
+   cannot overflow or divide by zero, c07_decompress_capacity.) *)
+Theorem c07_harness_evaluates_the_model :
+  forall (deser : list N -> option (list N)) (dir : direction) (encoding : option N) (max : option N)
+         (ztab : list (N * list N * option (list N))) (bs : N) (evs : list bev) (fuel extra : N),
+    bs < USIZE -> Forall ev_ok evs ->
+    fst (obs_decode_gen_x deser dir encoding max ztab bs evs fuel extra) =
+    fst (obs_decode_gen deser dir encoding max ztab evs fuel extra).
+Proof. exact obs_x_refines. Qed.
 
 (* never panics.  The panic sites of the Rust code are Buf::get_u8 / get_u32 on a short buffer,
    the slice [0..len] in decompress, the unwraps on Frame::into_data / into_trailers and
@@ -209,6 +225,262 @@ Example c07_witness_d :
   Nd [Nd [Nd [Nn 1; Bs [65]]; Nd [Nn 2; Nn 11]; Nd [Nn 3]]; Nn 0; Nd [Nd [Nn 3]; Nd [Nn 3]]; Nn 0].
 Proof. vm_compute. reflexivity. Qed.
 
+
+(* ---- AUDIT2 N-C07-1: body errors; Direction::Request + CANCELLED -------------------------------- *)
+(* A script of data chunks and Pending, then a body error [st], then whatever.  If a fresh stream
+   drains to Ready(None) WITHOUT yielding an error, then: it is a request stream and the body error
+   was CANCELLED (decode.rs poll_frame: `return Poll::Ready(Ok(None))`); the drain consumed the script
+   up to and including the body error and never saw the end of the body; every complete frame
+   received before the cancellation was delivered, in order (nothing is lost); and the decoder is NOT
+   in its Error state - it holds the bytes of the message that was cut ([rest d']) and waits. *)
+Theorem c07_body_error_clean_end_only_cancelled_request :
+  forall (enc msg : Type) (deser : list N -> option msg)
+         (decompress : enc -> list N -> option (list N))
+         (fuel : nat) (pre : list bev) (st : status) (post : list bev)
+         (dir : direction) (encoding : option enc) (max : option N)
+         (trace : list (pres msg)) (d' : dec enc) (evs' : list bev) (g' : bstat),
+    Forall ev_ok pre -> Forall ev_ok post -> only_dp pre ->
+    drain deser decompress fuel (pre ++ BErr st :: post) (mkB 0) (dec_new dir encoding max) =
+      (trace, Some (d', evs', g')) ->
+    (forall e, ~ In (Item (IErr e)) trace) ->
+    dir = Request /\ is_cancelled st = true /\ evs' = post /\ g' = mkB 0 /\
+    (non_error d' /\ decode_chunk deser decompress d' = KNone d') /\
+    Forall2 (fun (f : N * list N) (m : msg) => frame_msg deser decompress encoding f = Some m)
+            (frames (data_of pre)) (oks_of trace) /\
+    data_of pre = concat (map raw (frames (data_of pre))) ++ rest d'.
+Proof. exact @dec_body_error_drain. Qed.
+
+(* ... so every other body error (any code on a response stream, any code but CANCELLED on a request
+   stream), at any position, in any chunking, is reported by the drain (once: it is final) *)
+Theorem c07_body_error_reported :
+  forall (enc msg : Type) (deser : list N -> option msg)
+         (decompress : enc -> list N -> option (list N))
+         (fuel : nat) (pre : list bev) (st : status) (post : list bev)
+         (dir : direction) (encoding : option enc) (max : option N)
+         (trace : list (pres msg)) (fin : dec enc * list bev * bstat),
+    Forall ev_ok pre -> Forall ev_ok post -> only_dp pre ->
+    is_request dir && is_cancelled st = false ->
+    drain deser decompress fuel (pre ++ BErr st :: post) (mkB 0) (dec_new dir encoding max) = (trace, Some fin) ->
+    exists e, In (Item (IErr e)) trace.
+Proof. exact @dec_body_error_reported. Qed.
+
+(* After such a clean end (the state the theorem above describes), polled on over a body that has
+   nothing more to give (only Pending is left, then the end), for ANY number of polls: no message is
+   ever yielded.  If a message had been cut ([is_incomplete]) the first poll that reaches the end of
+   the body answers Err(INTERNAL 'Unexpected EOF') - one error AFTER the Ready(None) - and then
+   Ready(None) for ever (c07_first_error_is_final); otherwise Ready(None) for ever.
+   OBSERVATION, not a finding: the property's clauses (no panic, polls complete, yields are frames,
+   the first error is final, a drain terminates) all hold on this path; that a request cut short by
+   a cancellation ends cleanly is tonic's design, and the property text does not forbid an error
+   after an end.  A body that goes on after its own error is outside the property's inputs: there the
+   stream can yield messages after its Ready(None) (Example c07_cancelled_then_more_data). *)
+Theorem c07_request_polled_after_cancelled_end :
+  forall (enc msg : Type) (deser : list N -> option msg)
+         (decompress : enc -> list N -> option (list N))
+         (n : nat) (evs : list bev) (g : bstat) (d : dec enc)
+         (trace : list (pres msg)) (fin : dec enc * list bev * bstat),
+    (non_error d /\ decode_chunk deser decompress d = KNone d) ->
+    d_dir d = Request -> only_pending evs ->
+    polls deser decompress n evs g d = (trace, fin) ->
+    oks_of trace = [] /\
+    if is_incomplete d
+    then strip_pending trace = [] \/ exists k, strip_pending trace = Item (IErr st_eof) :: repeat Done k
+    else exists k, strip_pending trace = repeat Done k.
+Proof. exact @dec_request_after_end. Qed.
+
+(* the audit's witnesses, through what the harness evaluates.  00 00 00 00 05 01 02, CANCELLED:
+   None; then Err(INTERNAL), None.  A-frame, CANCELLED: None for ever.  On a response stream the
+   CANCELLED is reported. *)
+Example c07_cancelled_inside_a_frame :
+  obs_case_x None Request None None [] [BData [0; 0; 0; 0; 5; 1; 2]; BErr (mkStatus 1 [] [] [])] 4 3 0 7 8192 0 =
+  Nd [Nd [Nd [Nd [Nn 3]]; Nn 0; Nd [Nd [Nn 2; Nn 13]; Nd [Nn 3]; Nd [Nn 3]]; Nn 0]; Nn 1] /\
+  obs_case_x None Request None None [] [BData [0; 0; 0; 0; 1; 65]; BErr (mkStatus 1 [] [] [])] 5 3 0 6 8192 0 =
+  Nd [Nd [Nd [Nd [Nn 1; Bs [65]]; Nd [Nn 3]]; Nn 0; Nd [Nd [Nn 3]; Nd [Nn 3]; Nd [Nn 3]]; Nn 2]; Nn 1] /\
+  obs_case_x None (Response 200) None None [] [BData [0; 0; 0; 0; 5; 1; 2]; BErr (mkStatus 1 [] [] [])] 4 2 0 7 8192 0 =
+  Nd [Nd [Nd [Nd [Nn 2; Nn 1]; Nd [Nn 3]]; Nn 0; Nd [Nd [Nn 3]; Nd [Nn 3]]; Nn 0]; Nn 1].
+Proof. repeat split; vm_compute; reflexivity. Qed.
+
+(* outside the property's inputs: a body that delivers data after its own error *)
+Example c07_cancelled_then_more_data :
+  obs_case_x None Request None None [] [BData [0; 0; 0; 0; 2; 65]; BErr (mkStatus 1 [] [] []); BData [66]] 5 2 0 7 8192 0 =
+  Nd [Nd [Nd [Nd [Nn 3]]; Nn 0; Nd [Nd [Nn 1; Bs [65; 66]]; Nd [Nn 3]]; Nn 0]; Nn 1].
+Proof. vm_compute. reflexivity. Qed.
+
+(* the premises of the two theorems are met by the first witness *)
+Example c07_cancel_premises :
+  let pre := [BData [0; 0; 0; 0; 5; 1; 2]] in
+  Forall ev_ok pre /\ only_dp pre /\ is_cancelled (mkStatus 1 [] [] []) = true /\
+  exists trace d', drain deser_raw (ztab_lookup []) 4 (pre ++ [BErr (mkStatus 1 [] [] [])]) (mkB 0) (dec_new Request None None)
+                   = (trace, Some (d', [], mkB 0)) /\ (forall e, ~ In (Item (IErr e)) trace) /\
+                   is_incomplete d' = true /\ d_dir d' = Request.
+Proof.
+  repeat split; [repeat constructor | repeat constructor |].
+  eexists; eexists. split; [vm_compute; reflexivity|]. split; [|split; reflexivity].
+  intros e [H|[]]. discriminate.
+Qed.
+
+(* ---- a hostile COMPLETE frame always ends the stream with an error -------------------------------- *)
+(* (so far oracle only) any chunking, Pending anywhere, the body ending plainly or with a trailers
+   frame: if some complete frame of the input does not stand for a message - illegal flag, flag 1
+   without a negotiated encoding, a payload that does not decompress, a payload the message decoder
+   refuses - the drain yields an error; by c07_yields_are_frames_drain it has yielded at most the
+   messages of the frames before that frame, and by c07_first_error_is_final nothing after it *)
+Theorem c07_hostile_frame_is_error :
+  forall (enc msg : Type) (deser : list N -> option msg)
+         (decompress : enc -> list N -> option (list N))
+         (fuel : nat) (evs : list bev) (dir : direction) (encoding : option enc) (max : option N)
+         (trace : list (pres msg)) (fin : dec enc * list bev * bstat),
+    Forall ev_ok evs -> data_then_end evs ->
+    drain deser decompress fuel evs (mkB 0) (dec_new dir encoding max) = (trace, Some fin) ->
+    (exists f, In f (frames (data_of evs)) /\ frame_msg deser decompress encoding f = None) ->
+    exists st, In (Item (IErr st)) trace.
+Proof. exact @dec_hostile_frame_is_error. Qed.
+
+(* the same when the data is followed by a body error of any kind (also CANCELLED on a request) *)
+Theorem c07_hostile_frame_is_error_before_body_error :
+  forall (enc msg : Type) (deser : list N -> option msg)
+         (decompress : enc -> list N -> option (list N))
+         (fuel : nat) (pre : list bev) (st : status) (post : list bev)
+         (dir : direction) (encoding : option enc) (max : option N)
+         (trace : list (pres msg)) (fin : dec enc * list bev * bstat),
+    Forall ev_ok pre -> Forall ev_ok post -> only_dp pre ->
+    drain deser decompress fuel (pre ++ BErr st :: post) (mkB 0) (dec_new dir encoding max) = (trace, Some fin) ->
+    (exists f, In f (frames (data_of pre)) /\ frame_msg deser decompress encoding f = None) ->
+    exists e, In (Item (IErr e)) trace.
+Proof. exact @dec_hostile_frame_is_error_before_body_error. Qed.
+
+(* the premise on a concrete hostile stream: A-frame, a frame with flag 2, B-frame, cut anywhere *)
+Example c07_hostile_frame_premise :
+  let evs := [BData [0; 0; 0; 0; 1; 65; 2; 0]; BPending; BData [0; 0; 1; 66; 0; 0; 0; 0; 1; 67]] in
+  Forall ev_ok evs /\ data_then_end evs /\
+  exists f, In f (frames (data_of evs)) /\ frame_msg deser_raw (ztab_lookup []) None f = None.
+Proof.
+  repeat split; [repeat constructor|]. exists (2, [66]). split; [vm_compute; auto|reflexivity].
+Qed.
+
+(* ---- a decoded frame consumes exactly its five prefix bytes and its declared length ---------- *)
+(* (seeded change r4-C07: a decompressor that stops reading at the end of its stream must not leave
+   the rest of the frame in the buffer.)  Whatever the decompressor and the message decoder do with
+   the window they are handed: when decode_chunk yields a message, the unconsumed bytes were
+   flag || be32 len || payload(len) || what is left afterwards - the position advanced by exactly
+   5 + len, the next header is read right behind the payload - and the message is what that frame
+   stands for.  (c07_yields_are_frames is the same fact along whole runs: the yields sit at the
+   frame boundaries of the independent walk [frames].) *)
+Theorem c07_decoded_frame_consumes_exactly_its_length :
+  forall (enc msg : Type) (deser : list N -> option msg)
+         (decompress : enc -> list N -> option (list N)) (d d1 : dec enc) (m : msg),
+    wf d -> non_error d -> hdr_ok (rest d) ->
+    decode_chunk deser decompress d = KItem m d1 ->
+    exists (fl : N) (p : list N),
+      rest d = frame fl p ++ rest d1 /\ d_state d1 = ReadHeader /\ nlen p < U32 /\
+      length (rest d) = (5 + length p + length (rest d1))%nat /\
+      frame_msg deser decompress (d_encoding d) (fl, p) = Some m.
+Proof. exact @decode_chunk_advances_exactly. Qed.
+
+(* compression.rs decompress() in the tower the harness evaluates: the decompressor is a function of
+   exactly the [len] bytes of the slice &compressed_buf[0..len], and exactly [len] bytes leave the
+   buffer (advance(len)) - however much of them the library has read *)
+Theorem c07_decompress_consumes_exactly_len :
+  forall (enc : Type) (decompress : enc -> list N -> option (list N)) (bs : N)
+         (e : enc) (buf : list N) (len : N) (out rest : list N) (z : list zev),
+    decompress_call decompress bs e buf len = (ZOk out rest, z) ->
+    rest = ndrop len buf /\ decompress e (ntake len buf) = Some out /\ len <= nlen buf.
+Proof. exact @decompress_call_consumes_len. Qed.
+
+(* a gzip-like stream that ends early inside its frame: the frame 01 00000006 [9 9 | 0 0 0 0] (the
+   decompressor looks at the first two bytes only) followed by the frame "A": both messages, and the
+   padding 00 00 00 00 .. is never read as a frame header *)
+Example c07_trailing_bytes_inside_a_frame :
+  let z2 (_ : unit) (p : list N) := match p with 9 :: 9 :: _ => Some [77] | _ => None end in
+  fst (fst (polls_x deser_raw z2 8192 3 [BData [1; 0; 0; 0; 6; 9; 9; 0; 0; 0; 0; 0; 0; 0; 0; 1; 65]] (mkB 0)
+                    (dec_new Request (Some tt) None))) =
+  [Item (IOk [77]); Item (IOk [65]); Done].
+Proof. vm_compute. reflexivity. Qed.
+
+(* ---- AUDIT2 L-C07-5: polls of the ended body ------------------------------------------------------ *)
+(* any n polls from any state poll the exhausted body at most n times (each poll_next at most once);
+   after an error not at all (c07_first_error_is_final keeps the body bookkeeping [g''] unchanged).
+   After a CLEAN Ready(None) every further poll does poll the ended body again (state is not Error). *)
+Theorem c07_ended_body_polled_at_most_once_per_poll :
+  forall (enc msg : Type) (deser : list N -> option msg)
+         (decompress : enc -> list N -> option (list N))
+         (n : nat) (evs : list bev) (g : bstat) (d : dec enc)
+         (trace : list (pres msg)) (d' : dec enc) (evs' : list bev) (g' : bstat),
+    polls deser decompress n evs g d = (trace, (d', evs', g')) ->
+    b_end_polls g' <= b_end_polls g + N.of_nat n.
+Proof. exact @polls_end_polls. Qed.
+
+(* ---- AUDIT2 M17: compression.rs decompress() -------------------------------------------------------- *)
+(* the capacity estimate, in usize arithmetic of a debug build (overflow / division by zero = panic =
+   None): for a u32 length and any usize buffer size it is defined and is the estimate 2*len rounded
+   up to the next multiple of max(buffer_size, 1) above it *)
+Theorem c07_decompress_capacity :
+  forall bs len : N, len < U32 -> bs < USIZE ->
+    exists cap, decompress_capacity bs len = Some cap /\
+      cap = (len * 2 / N.max bs 1 + 1) * N.max bs 1 /\ len * 2 < cap /\ cap <= len * 2 + N.max bs 1.
+Proof. exact decompress_capacity_ok. Qed.
+
+(* every capacity decompress() reserves while a fresh stream is drained and then polled on - any
+   script of byte chunks - is at most 2 * max_message_size + max(buffer_size, 1): it is bounded by the
+   receiver's configuration (the limit applies to the COMPRESSED length) ... *)
+Theorem c07_decompress_reserve_bounded :
+  forall (enc msg : Type) (deser : list N -> option msg)
+         (decompress : enc -> list N -> option (list N)) (bs : N),
+    bs < USIZE ->
+    forall (fuel : nat) (evs : list bev) (dir : direction) (encoding : option enc) (max : option N),
+    Forall ev_ok evs ->
+    Forall (fun c => c <= 2 * limit_of (dec_new dir encoding max) + N.max bs 1)
+           (zcaps (snd (drain_x deser decompress bs fuel evs (mkB 0) (dec_new dir encoding max)))).
+Proof. exact @drain_x_caps_fresh. Qed.
+
+(* ... while NOTHING in tonic bounds what decompress() then writes: a 1-byte frame under a limit of
+   5 bytes is delivered as a 100000-byte message (log: reserve 8192, write 100000).  OBSERVATION
+   (decompression bomb): the property speaks of panics, polls and yields, not of memory. *)
+Example c07_limit_does_not_bound_decompressed_size :
+  let bomb (_ : unit) (_ : list N) := Some (rep 100000 0) in
+  match polls_x deser_raw bomb 8192 1 [BData [1; 0; 0; 0; 1; 9]] (mkB 0) (dec_new Request (Some tt) (Some 5)) with
+  | ([Item (IOk m)], _, z) => (nlen m, z)
+  | _ => (0, [])
+  end = (100000, [ZReserve 8192; ZOut 100000]).
+Proof. vm_compute. reflexivity. Qed.
+
+(* ---- Streaming::trailers() (and message()) -------------------------------------------------------- *)
+(* trailers() on a fresh stream, any script of byte chunks: within #events + #frames + 2 polls it
+   returns - it neither keeps waiting nor panics - and it returns the first error of the stream if
+   the drain meets one, else the trailers the drain has stored (None if there are none) *)
+Theorem c07_trailers_call :
+  forall (enc msg : Type) (deser : list N -> option msg)
+         (decompress : enc -> list N -> option (list N))
+         (evs : list bev) (dir : direction) (encoding : option enc) (max : option N) (fuel : nat),
+    Forall ev_ok evs -> (length evs + length (frames (data_of evs)) + 2 <= fuel)%nat ->
+    exists (trace : list (pres msg)) (d' : dec enc) (evs' : list bev) (g' : bstat),
+      drain deser decompress fuel evs (mkB 0) (dec_new dir encoding max) = (trace, Some (d', evs', g')) /\
+      fst (trailers_call deser decompress fuel evs (mkB 0) (dec_new dir encoding max)) =
+        match first_err trace with
+        | Some e => TErr e
+        | None => match d_trailers d' with Some t => TSome t | None => TNone end
+        end.
+Proof. exact @trailers_call_spec. Qed.
+
+Theorem c07_trailers_call_terminates :
+  forall (enc msg : Type) (deser : list N -> option msg)
+         (decompress : enc -> list N -> option (list N))
+         (evs : list bev) (dir : direction) (encoding : option enc) (max : option N) (fuel : nat),
+    Forall ev_ok evs -> (length evs + length (frames (data_of evs)) + 2 <= fuel)%nat ->
+    fst (trailers_call deser decompress fuel evs (mkB 0) (dec_new dir encoding max)) <> TFuel /\
+    fst (trailers_call deser decompress fuel evs (mkB 0) (dec_new dir encoding max)) <> TPanic.
+Proof. exact @trailers_call_terminates. Qed.
+
+(* F-C07f through the API: message() = Err(INTERNAL), trailers() = the stored OK trailers, then None *)
+Example c07_api_witness :
+  obs_api None (Response 200) None None []
+    [BData [0; 0; 0; 0; 5; 1; 2]; BTrailers [([103;114;112;99;45;115;116;97;116;117;115], [48])]] 5
+    [OpMessage; OpTrailers; OpTrailers; OpMessage] =
+  Nd [Nd [Nn 2; Nn 13];
+      Nd [Nn 6; hm_canon [([103;114;112;99;45;115;116;97;116;117;115], [48])]];
+      Nd [Nn 7]; Nd [Nn 3]].
+Proof. vm_compute. reflexivity. Qed.
+
 Print Assumptions c07_never_panics.
 Print Assumptions c07_yields_are_frames.
 Print Assumptions c07_yields_are_frames_drain.
@@ -217,6 +489,19 @@ Print Assumptions c07_first_error_is_final_trace.
 Print Assumptions c07_drain_terminates.
 Print Assumptions c07_truncation_detected.
 Print Assumptions c07_truncation_is_error.
+Print Assumptions c07_harness_evaluates_the_model.
+Print Assumptions c07_body_error_clean_end_only_cancelled_request.
+Print Assumptions c07_body_error_reported.
+Print Assumptions c07_request_polled_after_cancelled_end.
+Print Assumptions c07_ended_body_polled_at_most_once_per_poll.
+Print Assumptions c07_hostile_frame_is_error.
+Print Assumptions c07_decoded_frame_consumes_exactly_its_length.
+Print Assumptions c07_decompress_consumes_exactly_len.
+Print Assumptions c07_hostile_frame_is_error_before_body_error.
+Print Assumptions c07_decompress_capacity.
+Print Assumptions c07_decompress_reserve_bounded.
+Print Assumptions c07_trailers_call.
+Print Assumptions c07_trailers_call_terminates.
 
 (* the constants written by hand in the model equal the ones regenerated from the Rust source
    (Gen/ConstTables.v, rewritten by rs2v on every run) *)
